@@ -184,6 +184,9 @@ pub struct Compiler<'a, 'src> {
   /// The info on the current loop
   try_attributes: Option<TryAttributes>,
 
+  /// The scope depths of every try block enclosing the current position in this function
+  try_scopes: Vec<usize>,
+
   /// The info on the current loop
   loop_attributes: Option<LoopAttributes>,
 
@@ -296,6 +299,7 @@ impl<'a, 'src: 'a> Compiler<'a, 'src> {
       class_attributes: None,
       loop_attributes: None,
       try_attributes: None,
+      try_scopes: vec![],
       gc: Rc::new(RefCell::new(gc)),
       enclosing: None,
       local_tables: collections::Vec::new_in(alloc),
@@ -367,6 +371,7 @@ impl<'a, 'src: 'a> Compiler<'a, 'src> {
       class_attributes: enclosing.class_attributes,
       loop_attributes: None,
       try_attributes: None,
+      try_scopes: vec![],
       gc: Rc::clone(&enclosing.gc),
       locals: collections::Vec::new_in(enclosing.alloc),
       module_table: None,
@@ -451,7 +456,8 @@ impl<'a, 'src: 'a> Compiler<'a, 'src> {
       _ => self.emit_byte(SymbolicByteCode::Nil, line),
     }
 
-    if self.try_attributes.is_some() {
+    // a return leaves every enclosing try block so each of their handlers is popped
+    for _ in 0..self.try_scopes.len() {
       self.emit_byte(SymbolicByteCode::PopHandler, line);
     }
 
@@ -1597,7 +1603,8 @@ impl<'a, 'src: 'a> Compiler<'a, 'src> {
       Some(v) => {
         self.expr(v);
 
-        if self.try_attributes.is_some() {
+        // a return leaves every enclosing try block so each of their handlers is popped
+        for _ in 0..self.try_scopes.len() {
           self.emit_byte(SymbolicByteCode::PopHandler, v.end());
         }
 
@@ -1618,10 +1625,8 @@ impl<'a, 'src: 'a> Compiler<'a, 'src> {
 
     // if our try catch is inside this loop
     // a break will jump outside of it so we need to pop the handler
-    if let Some(try_attributes) = self.try_attributes {
-      if try_attributes.scope_depth > loop_attributes.scope_depth {
-        self.emit_byte(SymbolicByteCode::PopHandler, continue_.start());
-      }
+    for _ in 0..self.try_scopes_inside(loop_attributes.scope_depth) {
+      self.emit_byte(SymbolicByteCode::PopHandler, continue_.start());
     }
 
     self.emit_byte(
@@ -1641,13 +1646,20 @@ impl<'a, 'src: 'a> Compiler<'a, 'src> {
 
     // if our try catch is inside this loop
     // a break will jump outside of it so we need to pop the handler
-    if let Some(try_attributes) = self.try_attributes {
-      if try_attributes.scope_depth > loop_attributes.scope_depth {
-        self.emit_byte(SymbolicByteCode::PopHandler, break_.start());
-      }
+    for _ in 0..self.try_scopes_inside(loop_attributes.scope_depth) {
+      self.emit_byte(SymbolicByteCode::PopHandler, break_.start());
     }
 
     self.emit_byte(SymbolicByteCode::Jump(loop_attributes.end), break_.start());
+  }
+
+  /// How many of the enclosing try blocks were opened inside the scope at this depth
+  fn try_scopes_inside(&self, scope_depth: usize) -> usize {
+    self
+      .try_scopes
+      .iter()
+      .filter(|try_scope_depth| **try_scope_depth > scope_depth)
+      .count()
   }
 
   /// Compile a try catch block
@@ -1657,6 +1669,7 @@ impl<'a, 'src: 'a> Compiler<'a, 'src> {
       scope_depth: self.scope_depth,
     };
     let enclosing_try = self.try_attributes.replace(try_attributes);
+    self.try_scopes.push(self.scope_depth);
 
     let catch_label = self.label_emitter.emit();
 
@@ -1682,6 +1695,7 @@ impl<'a, 'src: 'a> Compiler<'a, 'src> {
     let catch = try_.catches.first().expect("Expected catch block");
     self.emit_byte(SymbolicByteCode::Label(catch_label), catch.start());
     self.try_attributes = enclosing_try;
+    self.try_scopes.pop();
 
     for catch in &try_.catches {
       self.catch(catch, try_end_label);
